@@ -44,6 +44,9 @@ fn main() {
         i += 2;
     }
     util::install_panic_hook();
+    if let (Some(o), None, false) = (&out, &cfg.only, cfg.mode == "miri") {
+        util::open_journal(&format!("{}.journal", o));
+    }
     let mons = vmon::mon::monitors();
     let m = match mons.iter().find(|(n, _)| *n == id) {
         Some(m) => m,
@@ -63,7 +66,10 @@ fn main() {
     j.put("mode", cfg.mode.clone());
     let text = j.to_string();
     match out {
-        Some(p) => std::fs::write(&p, text).expect("cannot write report"),
+        Some(p) => {
+            std::fs::write(&p, text).expect("cannot write report");
+            let _ = std::fs::remove_file(format!("{}.journal", p));
+        }
         None => println!("{}", text),
     }
     let _ = Json::Null;
